@@ -26,6 +26,18 @@ func genClosures(r *rand.Rand, id string, tier string) string {
 			// a Stack expression (any form) that may carry an Unmarshaler of its own: Condition.Unmarshal honours it
 			recv.Xs = []V{{T: 'K', Form: forms[r.Intn(4)], Cfg: Cfg{Kind: 1 + r.Intn(4), Umf: r.Intn(4)}, Xs: []V{{T: 's', S: "x"}}}}
 		}
+		if r.Intn(5) == 0 {
+			// a Condition expression (any form) that may carry an Unmarshaler of its own, holding a value, a Stack with one, or a
+			// Condition with one again: Condition.Unmarshal honours it at every level (F43)
+			var in V = V{T: 'i', I: 4}
+			switch r.Intn(3) {
+			case 0:
+				in = V{T: 'K', Form: forms[r.Intn(4)], Cfg: Cfg{Kind: 4, Umf: r.Intn(4)}, Xs: []V{{T: 's', S: "y"}}}
+			case 1:
+				in = V{T: 'C', Form: forms[r.Intn(4)], Cfg: Cfg{Umf: r.Intn(4)}, Kw: "in2", Op: "c2", Xs: []V{{T: 'i', I: 5}}}
+			}
+			recv.Xs = []V{{T: 'C', Form: forms[r.Intn(4)], Cfg: Cfg{Umf: r.Intn(4)}, Kw: "in", Op: "c3", Xs: []V{in}}}
+		}
 		if r.Intn(3) == 0 {
 			recv.Cfg.Opt |= fParen // a presentation closure's result is returned as it is, options or not
 		}
@@ -47,7 +59,14 @@ func genClosures(r *rand.Rand, id string, tier string) string {
 		if r.Intn(3) == 0 {
 			// nested nodes with Unmarshalers of their own (a directly nested Stack's is ignored, a nested Condition's and a
 			// Condition-held Stack's are honoured, an error ends the walk), between plain elements
-			switch r.Intn(3) {
+			switch r.Intn(4) {
+			case 3:
+				// a Condition held by a Condition (any forms; F43): its Unmarshaler is honoured, also one level further down
+				in := V{T: 'C', Form: forms[r.Intn(4)], Cfg: Cfg{Umf: 1 + r.Intn(3)}, Kw: "in", Op: "c3", Xs: []V{{T: 'i', I: 6}}}
+				if r.Intn(2) == 0 {
+					in = V{T: 'C', Form: forms[r.Intn(4)], Kw: "mid", Op: "c2", Xs: []V{in}}
+				}
+				recv.Xs = append(recv.Xs, V{T: 'C', Form: forms[r.Intn(4)], Kw: "nc", Op: "c1", Xs: []V{in}})
 			case 0:
 				recv.Xs = append(recv.Xs, V{T: 'K', Form: forms[r.Intn(4)], Cfg: Cfg{Kind: 2, Umf: 1 + r.Intn(3)}, Xs: []V{{T: 'i', I: 7}}})
 			case 1:
